@@ -19,10 +19,66 @@ def write_if_changed(path, text):
     return True
 
 
+def repo_hash(extra_files=()):
+    """content hash of the working tree's Python sources and form templates (what the generators read)"""
+    import hashlib
+    from common import REPO
+    h = hashlib.sha256()
+    for root, dirs, files in os.walk(os.path.join(REPO, 'habutax')):
+        dirs[:] = sorted(d for d in dirs if d not in ('__pycache__', 'instructions'))
+        for fn in sorted(files):
+            if fn.endswith(('.py', '.pdf')):
+                path = os.path.join(root, fn)
+                h.update(path.encode())
+                with open(path, 'rb') as f:
+                    h.update(hashlib.sha256(f.read()).digest())
+    for path in extra_files:
+        with open(path, 'rb') as f:
+            h.update(f.read())
+    return h.hexdigest()
+
+
+def stamped(name, outputs, extra_files, info, produce):
+    """Run `produce` unless the stamp says the same inputs already produced the outputs."""
+    stamp = os.path.join(GEN_DIR, f'.stamp_{name}')
+    want = repo_hash(extra_files)
+    try:
+        if open(stamp).read() == want and all(os.path.exists(os.path.join(GEN_DIR, o)) for o in outputs):
+            return False
+    except FileNotFoundError:
+        pass
+    produce()
+    if not any(f.get('id') == name for f in info['failed']):
+        os.makedirs(GEN_DIR, exist_ok=True)
+        with open(stamp, 'w') as f:
+            f.write(want)
+    return True
+
+
+def gen_translate(info):
+    """the shipped forms as DSL terms: Gen/Forms<year>_<k>.lean, Gen/Catalogue<year>.lean, Gen/TaxTable<year>.lean"""
+    import json
+    from common import VERIF
+    tool = os.path.join(VERIF, 'tools', 'translate.py')
+
+    def produce():
+        code, out = _run_tool(['translate.py'])
+        if code != 0:
+            info['failed'].append({'id': 'translate', 'log': out[-2000:]})
+    stamped('translate', ['Catalogue2021.lean', 'Catalogue2022.lean', 'Catalogue2023.lean', 'translate_report.json'],
+            [tool], info, produce)
+    try:
+        info['translate_report'] = json.load(open(os.path.join(GEN_DIR, 'translate_report.json')))
+    except Exception:  # noqa: BLE001
+        info['translate_report'] = None
+
+
 def generate_for(pid):
     """Returns info about what was generated for this property (extra lake targets, failed
     obligations detected while generating)."""
     info = {'extra_targets': [], 'failed': []}
+    gen_chartable(info)      # the driver imports both
+    gen_translate(info)
     fn = globals().get('gen_' + pid)
     if fn is not None:
         fn(info)
@@ -42,6 +98,11 @@ def _run_tool(args, timeout=900):
 def gen_chartable(info):
     """Unicode class tables of the running CPython -> Gen/CharTable.lean"""
     import tempfile
+    if info.get('_chartable_done') or os.path.exists(os.path.join(GEN_DIR, 'CharTable.lean')) and os.environ.get('VERIF_TIER') != 'thorough':
+        # the table depends on the interpreter only, not on /repo; regenerated on thorough runs and in setup
+        info['_chartable_done'] = True
+        return
+    info['_chartable_done'] = True
     tmp = tempfile.mktemp(suffix='.lean', dir='/var/tmp')
     try:
         code, out = _run_tool(['gen_chartable.py', tmp])
@@ -93,10 +154,47 @@ def gen_C18(info):
     info['extra_targets'] += ['HabuVerif.Gen.C18_2021', 'HabuVerif.Gen.C18_2022', 'HabuVerif.Gen.C18_2023']
 
 
+def gen_C07(info):
+    """TAX_TABLE / TAX_WORKSHEET_VALUES of the three years -> Gen/C07_<year>.lean"""
+    import json
+    import shutil
+    import tempfile
+    from common import VERIF
+
+    def produce():
+        tmpdir = tempfile.mkdtemp(dir='/var/tmp', prefix='hv-gen-')
+        try:
+            code, out = _run_tool(['gen_c07.py', '--out-dir', tmpdir])
+            if code != 0:
+                info['failed'].append({'id': 'c07', 'log': out[-2000:]})
+                return
+            for fn in sorted(os.listdir(tmpdir)):
+                with open(os.path.join(tmpdir, fn), encoding='utf-8') as f:
+                    write_if_changed(os.path.join(GEN_DIR, fn), f.read())
+        finally:
+            shutil.rmtree(tmpdir, ignore_errors=True)
+    stamped('c07', ['C07.lean', 'c07_failed.json', 'c07_obligations.json'],
+            [os.path.join(VERIF, 'tools', 'gen_c07.py')], info, produce)
+    try:
+        info['c07_failed'] = json.load(open(os.path.join(GEN_DIR, 'c07_failed.json')))
+        info['c07_obligations'] = json.load(open(os.path.join(GEN_DIR, 'c07_obligations.json')))
+    except Exception as e:  # noqa: BLE001
+        info['failed'].append({'id': 'c07', 'log': repr(e)})
+
+
+def genall_c07(info):
+    gen_C07(info)
+
+
 def generate_all():
     """used by setup: everything that `lake build` of the whole library needs"""
     info = {'extra_targets': [], 'failed': []}
+    try:
+        os.remove(os.path.join(GEN_DIR, 'CharTable.lean'))
+    except FileNotFoundError:
+        pass
     gen_chartable(info)
+    gen_translate(info)
     gen_c17_c18(info)
     for name, fn in list(globals().items()):
         if name.startswith('genall_'):
